@@ -118,6 +118,46 @@ func runC08(c *fw.Case) (o fw.Outcome) {
 			o.Tag("ie:" + d.Name + "." + opts[i].Name)
 		}
 	}
+	// aimed remainders: the number of octets still unread when an IE's length field is examined is a multiple of 256 (or
+	// a few octets off): byte counters narrowed to 8 bits compare against 0 there. The last present two-octet-length IE
+	// is stretched so that the part of the message after a chosen optional IE has exactly that size.
+	if npres >= 2 && c.Idx%4 == 3 {
+		var present []int
+		for i := 0; i < k; i++ {
+			if mask&(1<<uint(i)) != 0 {
+				present = append(present, i)
+			}
+		}
+		last := -1
+		for _, i := range present {
+			f := nv.Msg.Elem().Field(opts[i].Index)
+			if memberCapacity(opts[i].Type) > 255 && !f.IsNil() {
+				last = i
+			}
+		}
+		cut := present[r.Intn(len(present)-1)] // boundary: everything after optional IE "cut"
+		if last > cut {
+			full, e1 := nasEncodeVia(nv)
+			head, e2 := nasEncodeVia(genCopyWithMask(nv, mask&(1<<uint(cut+1)-1)))
+			if e1 == nil && e2 == nil && len(full) >= len(head) {
+				suffix := len(full) - len(head)
+				delta := ((-suffix+r.Intn(9)-4)%256 + 256) % 256
+				if r.Intn(3) == 0 {
+					delta += 256 * (1 + r.Intn(3))
+				}
+				f := nv.Msg.Elem().Field(opts[last].Index).Elem()
+				_, ln, _, buffer := memberFields(opts[last].Type)
+				if ln >= 0 && buffer >= 0 {
+					nb := append(append([]byte(nil), f.Field(buffer).Bytes()...), fillBytes(r, delta)...)
+					if len(nb) <= 65535 {
+						f.Field(buffer).SetBytes(nb)
+						f.Field(ln).SetUint(uint64(len(nb)))
+						o.Tag("aimed-remainder-multiple-of-256")
+					}
+				}
+			}
+		}
+	}
 	b, err := nasEncodeVia(nv)
 	if m := retainCheck("nas-encode", b, d.Name); m != "" {
 		o.Fail("retained-encoding-changed", "%s", m)
